@@ -179,6 +179,7 @@ func runC18(c *Ctx) {
 	c.Rule("C18-R1", "config strings reaching panicking / error-dropping constructors are validated by the same constructor", 25)
 	c.Rule("C18-R2", "results of error-dropping calls and nil-returning wrappers are not dereferenced unchecked", 6)
 	c.Rule("C18-R3", "validate() coverage of nested config structs", 20)
+	defer c18PatternsAreCompiledAsValidated(c, "C18-R1")
 
 	// ---- validated table ----
 	validated := map[string]map[sinkKind]bool{} // "Type.field" -> kinds
